@@ -32,6 +32,8 @@ _ids = itertools.count(1)
 MUTATORS = {"append", "extend", "update", "insert", "remove", "clear", "sort", "shuffle", "setdefault", "add", "put"}
 INPLACE_KW = {"drop", "fillna", "rename", "reset_index", "sort_values", "drop_duplicates", "dropna", "set_index"}
 
+_ARITH_METHODS = {"sub": "-", "subtract": "-", "mul": "*", "multiply": "*", "div": "/", "truediv": "/", "divide": "/", "floordiv": "//",
+                  "mod": "%", "pow": "**", "add": "+"}
 BINOPS = {
     ast.Add: "+", ast.Sub: "-", ast.Mult: "*", ast.Div: "/", ast.FloorDiv: "//", ast.Mod: "%", ast.Pow: "**",
     ast.MatMult: "@", ast.BitAnd: "&", ast.BitOr: "|", ast.BitXor: "^", ast.LShift: "<<", ast.RShift: ">>",
@@ -433,8 +435,9 @@ class _Eval:
             if va == vb:
                 env[k] = va
             else:
-                env[k] = I(("phi", cond, va if va is not None else ("unknown", "unbound"),
-                            vb if vb is not None else ("unknown", "unbound")))
+                dg = _dict_get(cond, va, vb) if va is not None and vb is not None else None
+                env[k] = I(dg) if dg is not None else I(("phi", cond, va if va is not None else ("unknown", "unbound"),
+                                                         vb if vb is not None else ("unknown", "unbound")))
         attrs = {}
         for k in set(a.attrs) | set(b.attrs):
             va = a.attrs.get(k, ("attr", ("param", "self"), k))
@@ -497,6 +500,9 @@ class _Eval:
             if r[0] == "module":
                 return ("global", r[1].name)
             if r[0] == "const":
+                lit = _new_constant_value(r[1], r[2])
+                if lit is not None:
+                    return lit
                 return ("global", f"{r[1].name}:{r[2]}")
             if r[0] == "ext":
                 return ("global", r[1])
@@ -585,6 +591,9 @@ class _Eval:
         c, a, b = self.expr(e.test), self.expr(e.body), self.expr(e.orelse)
         while c[0] == "un" and c[1] == "not":
             c, a, b = c[2], b, a
+        dg = _dict_get(c, a, b)
+        if dg is not None:
+            return dg
         return ("ifexp", c, a, b)
 
     def e_JoinedStr(self, e):
@@ -663,6 +672,51 @@ class _Eval:
         self.store(e.target, v, e)
         return v
 
+    def _query_mask(self, frame, q):
+        """boolean-mask term of a DataFrame.query string over `frame` (columns by bare name, python variables by @name); None if the
+        string uses anything beyond comparisons, and / or / not, & | ~, arithmetic and constants"""
+        import re as _re
+        try:
+            tree = ast.parse(_re.sub(r"@([A-Za-z_]\w*)", r"__at__\1", q.strip()), mode="eval").body
+        except SyntaxError:
+            return None
+
+        def cv(n):
+            if isinstance(n, ast.BoolOp):
+                vals = [cv(v) for v in n.values]
+                if any(v is None for v in vals):
+                    return None
+                out = vals[0]
+                for v in vals[1:]:
+                    out = ("bin", "&" if isinstance(n.op, ast.And) else "|", out, v)
+                return out
+            if isinstance(n, ast.UnaryOp) and isinstance(n.op, (ast.Not, ast.Invert)):
+                v = cv(n.operand)
+                return None if v is None else ("un", "~", v)
+            if isinstance(n, ast.BinOp) and isinstance(n.op, (ast.BitAnd, ast.BitOr)):
+                l_, r_ = cv(n.left), cv(n.right)
+                return None if l_ is None or r_ is None else ("bin", "&" if isinstance(n.op, ast.BitAnd) else "|", l_, r_)
+            if isinstance(n, ast.BinOp) and type(n.op) in BINOPS:
+                l_, r_ = cv(n.left), cv(n.right)
+                return None if l_ is None or r_ is None else ("bin", BINOPS[type(n.op)], l_, r_)
+            if isinstance(n, ast.Compare) and len(n.ops) == 1 and type(n.ops[0]) in CMPOPS:
+                l_, r_ = cv(n.left), cv(n.comparators[0])
+                if l_ is None or r_ is None:
+                    return None
+                o_ = CMPOPS[type(n.ops[0])]
+                if o_ in _CMP_FLIP and _cmp_rank(l_) > _cmp_rank(r_):
+                    return ("cmp", _CMP_FLIP[o_], r_, l_)
+                return ("cmp", o_, l_, r_)
+            if isinstance(n, ast.Name):
+                if n.id.startswith("__at__"):
+                    return self.expr(ast.Name(id=n.id[len("__at__"):], ctx=ast.Load()))
+                return ("attr", frame, n.id)
+            if isinstance(n, ast.Constant):
+                return ("const", n.value)
+            return None
+
+        return cv(tree)
+
     def e_Call(self, e):
         # super().m(..)
         f = e.func
@@ -698,6 +752,20 @@ class _Eval:
                     named[p_] = v_
                 args = tuple(pos)
                 kws = tuple(sorted(named.items(), key=lambda kv: kv[0])) + tuple(kv for kv in kws if kv[0] is None)
+        if ft[0] == "attr" and ft[2] in _ARITH_METHODS and len(args) == 1 and not kws and ft[1][0] in ("sub", "attr", "bin", "call", "param", "col") \
+                and not (ft[1][0] == "call" and ft[1][1][0] == "global" and ft[1][1][1].split(".")[-1] in ("set", "dict", "list", "frozenset")):
+            # Series / array arithmetic methods without options are the operators: a.sub(b).div(b) is (a - b) / b
+            return ("bin", _ARITH_METHODS[ft[2]], ft[1], args[0])
+        if ft[0] == "attr" and ft[2] == "assign" and not args and kws and all(k_ is not None and v_[0] == "const" for k_, v_ in kws):
+            # frame.assign(col=<constant>) is a copy of the frame with that column set: the spelling `c = frame.copy(); c[col] = <constant>`
+            out_ = ("call", ("attr", ft[1], "copy"), (), ())
+            for k_, v_ in kws:
+                out_ = ("setitem", out_, ("const", k_), v_)
+            return out_
+        if ft[0] == "attr" and ft[2] == "query" and len(args) == 1 and not kws and args[0][0] == "const" and isinstance(args[0][1], str):
+            m_ = self._query_mask(ft[1], args[0][1])
+            if m_ is not None:
+                return ("sub", ft[1], m_)  # frame.query("a > @b") selects the same rows as frame[frame.a > b]: one canonical spelling
         if ft[0] == "attr" and ft[2] == "format" and ft[1][0] == "const" and isinstance(ft[1][1], str):
             tpl = _format_template(ft[1][1], args, kws)
             if tpl is not None:
@@ -746,6 +814,32 @@ def _known_functions():
         except OSError:
             _KNOWN = set()
     return _KNOWN
+
+
+def _new_constant_value(module, name):
+    """a module-level NAME = <literal> that did not exist when the rules were written (a magic number moved to module level) reads as the
+    literal itself; constants the rules know by name (S3_FILE_PATH, BASELINE_PREFIX ..) stay symbolic"""
+    k = _known_functions()
+    if not k or f"const {module.name}:{name}" in k:
+        return None
+    node = module.constants.get(name)
+    try:
+        v = ast.literal_eval(node)
+    except Exception:
+        return None
+
+    def lit(x):
+        if isinstance(x, (str, int, float, bool, type(None))):
+            return ("const", x)
+        if isinstance(x, tuple):
+            return ("tuple", tuple(lit(y) for y in x))
+        if isinstance(x, list):
+            return ("list", tuple(lit(y) for y in x))
+        raise ValueError
+    try:
+        return lit(v)
+    except ValueError:
+        return None
 
 
 def _maybe_new(ft):
@@ -898,6 +992,17 @@ def repo_call(fterm, named_args):
     engine writes such calls with the longest positional prefix AND every bound parameter by name (see _Eval.e_Call):
     repo_call(('attr', self, 'm'), [('a', A), ('b', B)])  ==  term of  self.m(A, B) / self.m(A, b=B) / self.m(a=A, b=B)"""
     return ("call", fterm, tuple(v for _, v in named_args), tuple(sorted(named_args, key=lambda kv: kv[0])))
+
+
+def _dict_get(cond, a, b):
+    """`d[k] if k in d else default` (statement or expression form) is d.get(k, default): one canonical spelling. cond / a / b as in
+    phi(cond, a, b); returns the call term or None."""
+    if cond[0] == "cmp" and cond[1] in ("in", "not in") and len(cond) == 4:
+        k_, d_ = cond[2], cond[3]
+        hit, miss = (a, b) if cond[1] == "in" else (b, a)
+        if hit == ("sub", d_, k_) and k_[0] == "const" and not any(x == ("sub", d_, k_) for x in walk(miss)):
+            return ("call", ("attr", d_, "get"), (k_, miss), ())
+    return None
 
 
 def nrows(x):
